@@ -149,7 +149,11 @@ class _FlagsFetchValue(DynamicFetchValue):
 
     def get_value(self) -> MaybeBytes:
         session_flags = self.selected.session_flags
-        flag_set = self.message.get_flags(session_flags)
+        # Report the flags the selection was last synchronized with, which
+        # is what later updates are compared against. The message object
+        # may predate another session's change.
+        current = self.selected.messages.get(self.message.uid)
+        flag_set = (current or self.message).get_flags(session_flags)
         return List(flag_set, sort=True)
 
 
